@@ -8,7 +8,7 @@ STFSDRV = os.path.join(V, "bin", "stfsdrv")
 
 O_RDONLY, O_WRONLY, O_RDWR, O_APPEND, O_CREATE, O_EXCL, O_TRUNC = 0, 1, 2, 0o2000, 0o100, 0o200, 0o1000
 
-ALPHA = ["a", "ab", "a_", "a%", "A", "a b", ".x", "é", "x.gz", "b", "c", "L" * 120]
+ALPHA = ["a", "ab", "a_", "a%", "A", "a b", ".x", "é", "x.gz", "b", "c", "L" * 120, "a%b", "a_b", "%", "_"]
 SAFE_ALPHA = ["a", "b", "c", "d", "ab", "e1"]
 
 
@@ -419,6 +419,49 @@ def emit_case(h, results, ident):
             % (cfg.get("rs", 20), cq_str(csuf), cq_str(esuf), cq_bool(cfg.get("readonly", False)), uid, gid, cq_str(uname), cq_str(gname)))
     txt = "{| cs_cfg := %s;\n   cs_hist := %s;\n   cs_obs := %s |}" % (ccfg, cq_list(hist), cq_list(obs))
     return txt.replace('"UID"', str(uid)).replace("UID", str(uid)).replace("GID", str(gid))
+
+
+def emit_hist(h, results, upto, ident):
+    """(cfg term, history term, Canon) for the first [upto] calls; needs obs 'tape' on every one of them"""
+    cn = Canon(h, results)
+    uid, gid, uname, gname = ident
+    hist, prev_blocks = [], 0
+    for i in range(upto):
+        o = results[i].get("obs") or {}
+        if "tape_len" not in o or o["tape_len"] % 512 != 0:
+            return None
+        newm = [m for m in o.get("members", []) if m["start"] >= prev_blocks]
+        now = -(i + 1)
+        hist.append("(%s, {| ev_hb := %s; ev_enc := %s; ev_now := %s |})" % (
+            cq_call(h, h["calls"][i], now), cq_list([str(m["hb"]) for m in newm]), cq_list([str(m["size"]) for m in newm if m["size"] > 0]), cq_Z(now)))
+        prev_blocks = o["tape_len"] // 512
+    cfg = h["config"]
+    csuf = {"": "", "gzip": ".gz", "parallelgzip": ".gz", "lz4": ".lz4", "zstandard": ".zst", "brotli": ".br", "bzip2": ".bz2", "parallelbzip2": ".bz2"}[cfg.get("comp", "")]
+    esuf = {"": "", "age": ".age", "pgp": ".pgp"}[cfg.get("enc", "")]
+    ccfg = ("{| c_rs := %d; c_csuf := %s; c_esuf := %s; c_readonly := %s; c_uid := %d; c_gid := %d; c_uname := %s; c_gname := %s |}"
+            % (cfg.get("rs", 20), cq_str(csuf), cq_str(esuf), cq_bool(cfg.get("readonly", False)), uid, gid, cq_str(uname), cq_str(gname)))
+    fix = lambda t: t.replace("UID", str(uid)).replace("GID", str(gid))
+    return fix(ccfg), fix(cq_list(hist)), cn
+
+
+def coq_eval_list(prelude, defs, tag, timeout=1200):
+    """Compile a case file that Prints definitions M<k>; returns (ok, {k: text}, log)."""
+    import re
+    d = os.path.join(COQ, "Cases")
+    os.makedirs(d, exist_ok=True)
+    f = os.path.join(d, "%s.v" % tag)
+    with open(f, "w") as hf:
+        hf.write("From Coq Require Import String List NArith ZArith Bool.\nImport ListNotations.\n" + prelude + "\nOpen Scope N_scope.\nOpen Scope string_scope.\n")
+        for k, body in enumerate(defs):
+            hf.write("Definition M%d := Eval vm_compute in %s.\nPrint M%d.\n" % (k, body, k))
+    rc, out = sh("coqc -Q Skel STFS -Q Gen STFS -Q Mon STFS -Q Model STFS -Q Proofs STFS -Q Props STFS Cases/%s.v" % tag, cwd=COQ, timeout=timeout)
+    for ext in (".vo", ".vok", ".vos", ".glob"):
+        try:
+            os.remove(f[:-2] + ext)
+        except OSError:
+            pass
+    res = {int(k): " ".join(v.split()) for k, v in re.findall(r"M(\d+)\s*=\s*(.*?)\s*:\s*(?:list|bool|nat|N|option)", out, re.S)}
+    return rc == 0 and len(res) == len(defs), res, out[-2000:]
 
 
 def identity_of(results):
